@@ -45,6 +45,17 @@ TOL = 1e-9
 
 # =================================================================== (a) correspondence
 
+def rand_select(rng, ctx, kind):
+    """a dyadic post-selection value; a quarter of the time exactly zero in one of the forms a user may write"""
+    if rng.random() < 0.25:
+        form = rng.choice(["int", "float", "negfloat"] if kind == "homodyne" else ["int", "float", "complex", "negcomplex"])
+        ctx.tally(f"corr:select-zero:{kind}:{form}")
+        return {"int": 0, "float": 0.0, "negfloat": -0.0, "complex": 0j, "negcomplex": complex(-0.0, 0.0)}[form]
+    if kind == "homodyne":
+        return m6.dy(rng, -8, 8, 4)
+    return complex(m6.dy(rng, -6, 6, 8), m6.dy(rng, -6, 6, 8))
+
+
 class Batch:
     def __init__(self, ctx):
         self.ctx, self.reqs, self.pend = ctx, [], []
@@ -203,7 +214,7 @@ def corr_gauss(ctx, B, sf):
             return be
 
         if kind == "het":
-            al = complex(m6.dy(rng, -6, 6, 8), m6.dy(rng, -6, 6, 8))
+            al = rand_select(rng, ctx, 'heterodyne')
             g = make()
             ret = g.post_select_heterodyne(k, al)
             case.update(alpha=[al.real, al.imag])
@@ -211,7 +222,7 @@ def corr_gauss(ctx, B, sf):
                   "Measure.gaussPostSelect vs GaussianModes.post_select_heterodyne", case,
                   lambda r, g=g, ret=ret, al=al, tol=tol: _gs_check(r, g, tol) or (None if ret == al else ("alpha", ret)))
         elif kind == "hom":
-            val, off = m6.dy(rng, -8, 8, 4), m6.dy(rng, -4, 4, 4)
+            val, off = rand_select(rng, ctx, 'homodyne'), m6.dy(rng, -4, 4, 4)
             g = make()
             with m6.ScriptRNG(normal_offset=off) as sr:
                 ret = g.post_select_homodyne(k, val, float(EPS))
@@ -274,7 +285,7 @@ def corr_gauss(ctx, B, sf):
             case.update(phi=phi, c=m6.rat(c), s=m6.rat(s), hbar=hbar)
             be = backend()
             if kind in ("b_hom_sel", "front_hom_sel"):
-                sel, off = m6.dy(rng, -8, 8, 4), m6.dy(rng, -4, 4, 4)
+                sel, off = rand_select(rng, ctx, 'homodyne'), m6.dy(rng, -4, 4, 4)
                 with m6.ScriptRNG(normal_offset=off), m6.hbar_set(sf, hbar):
                     if front:
                         ret = sfops.MeasureHomodyne(phi, select=sel)._apply([k], be, shots=1)
@@ -304,7 +315,7 @@ def corr_gauss(ctx, B, sf):
                           None if np.asarray(ret).shape == (1, 1) and abs(np.asarray(ret)[0, 0] - m6.unrat(r["homReturned"])) < 1e-9
                           else (m6.unrat(r["homReturned"]), np.asarray(ret).tolist())))
             elif kind == "b_het_sel":
-                al = complex(m6.dy(rng, -6, 6, 8), m6.dy(rng, -6, 6, 8))
+                al = rand_select(rng, ctx, 'heterodyne')
                 ret = be.measure_heterodyne(k, select=al)
                 case.update(alpha=[al.real, al.imag])
                 B.add(dict(op="meas.gaussPost", modes=[k], het=m6.rvec([al.real, al.imag]), **base),
@@ -550,14 +561,14 @@ def _corr_bosonic_one(ctx, B, rng, kind, n, nc, covs, means, w0, modes, case, ma
                       "Measure.bosonicDyneComp vs BosonicModes.post_select_generaldyne (2 modes)", case,
                       lambda r, b=b: chk_state(r, b))
         elif kind == "het_c":
-            al = complex(m6.dy(rng, -6, 6, 8), m6.dy(rng, -6, 6, 8))
+            al = rand_select(rng, ctx, 'heterodyne')
             b = make()
             case.update(alpha=[al.real, al.imag])
             try_("Measure.bosonicDyneComp vs BosonicModes.post_select_heterodyne", case, lambda: b.post_select_heterodyne(modes[0], al))
             B.add(dict(op="meas.bosonicPost", hetCircuit=m6.rvec([al.real, al.imag]), **base),
                   "Measure.bosonicDyneComp vs BosonicModes.post_select_heterodyne", case, lambda r, b=b: chk_state(r, b))
         elif kind == "hom_c":
-            val = m6.dy(rng, -8, 8, 4)
+            val = rand_select(rng, ctx, 'homodyne')
             b = make()
             case.update(val=val)
             try_("Measure.bosonicDyneComp vs BosonicModes.post_select_homodyne", case, lambda: b.post_select_homodyne(modes[0], val, float(EPS)))
@@ -568,7 +579,7 @@ def _corr_bosonic_one(ctx, B, rng, kind, n, nc, covs, means, w0, modes, case, ma
             be.begin_circuit(n)
             be.circuit.weights, be.circuit.means, be.circuit.covs = w0.astype(complex), means.astype(complex), covs.astype(complex)
             if kind == "b_het_sel":
-                al = complex(m6.dy(rng, -6, 6, 8), m6.dy(rng, -6, 6, 8))
+                al = rand_select(rng, ctx, 'heterodyne')
                 case.update(alpha=[al.real, al.imag])
                 ret = try_("Measure vs BosonicBackend.measure_heterodyne(select)", case, lambda: be.measure_heterodyne(modes[0], select=al))
                 B.add(dict(op="meas.bosonicPost", hetBackend=m6.rvec([al.real, al.imag]), **base),
@@ -576,7 +587,7 @@ def _corr_bosonic_one(ctx, B, rng, kind, n, nc, covs, means, w0, modes, case, ma
                       lambda r, be=be, ret=ret, al=al: chk_state(r, be.circuit) or (
                           None if np.asarray(ret).shape == (1, 1) and np.asarray(ret)[0, 0] == al else ("alpha", np.asarray(ret).tolist())))
             else:
-                sel = m6.dy(rng, -8, 8, 4)
+                sel = rand_select(rng, ctx, 'homodyne')
                 case.update(select=sel)
                 ret = try_("Measure vs BosonicBackend.measure_homodyne(select)", case, lambda: be.measure_homodyne(0.0, modes[0], select=sel))
                 B.add(dict(op="meas.bosonicPost", eps=m6.rat(EPS), homSelect=m6.rvec([1, 1, sel]), scale=m6.rvec([1, 1]), **base),
@@ -665,6 +676,36 @@ def corr_fock(ctx, B):
             B.add(dict(op="fock.apply", kind="projectResetPure" if pure else "projectResetMixed", D=D, n=n, modes=measure,
                        xs=xs, state=simcorr.flat(t), mat=[]), "FockTensor.projectReset vs ops.project_reset", dict(case, xs=xs),
                   lambda r, out=out: None if r == simcorr.flat(out) else ("model", "impl differs"))
+
+
+def corr_hermite(ctx, B):
+    """`fockbackend/ops.hermiteVals` (memoised with lru_cache) vs Measure.{linspacePt, hermiteVals}: consecutive calls that
+    differ in ONE argument only (grid maximum, number of bins, frequency, cutoff), each repeated later"""
+    from strawberryfields.backends.fockbackend import ops as fops
+    rng = ctx.rng
+    base = [rng.choice([2, 3, 2.5]), rng.randint(3, 9), rng.choice([1.0, 0.25, 4.0]), rng.randint(2, 7)]
+    calls = [tuple(base)]
+    for _ in range(ctx.n(10, 60)):
+        c = list(calls[-1])
+        j = rng.randrange(4)
+        c[j] = [rng.choice([2, 3, 2.5, 1.5]), rng.randint(3, 9), rng.choice([1.0, 0.25, 4.0]), rng.randint(2, 7)][j]
+        calls.append(tuple(c))
+        if rng.random() < 0.3:
+            calls.append(rng.choice(calls))           # an earlier configuration again (served from the cache)
+    for (q, nb, mw, trunc) in calls:
+        case = dict(kind="hermite", q=q, nb=nb, m_omega_over_hbar=mw, trunc=trunc)
+        ctx.count("corr:fock:hermite", case, True, sample=case)
+        try:
+            grid, H = fops.hermiteVals(q, nb, mw, trunc)
+            Hm = np.array([np.broadcast_to(np.asarray(h, dtype=float), (nb,)) for h in H])
+        except Exception as e:  # noqa: BLE001
+            ctx.corr_cases += 1
+            ctx.disagree("Measure.hermiteVals vs ops.hermiteVals", case, "a table", f"raised {type(e).__name__}: {e}")
+            continue
+        B.add(dict(op="meas.hermite", q=m6.rat(q), s=m6.rat(math.sqrt(mw)), nb=nb, trunc=trunc),
+              "Measure.{linspacePt, hermiteVals} vs fockbackend ops.hermiteVals", case,
+              lambda r, grid=np.array(grid, dtype=float), Hm=Hm: None if m6.close(grid, m6.unrvec(r["grid"]), 1e-12) and
+              m6.close(Hm, m6.unrmat(r["H"]), 1e-10) else (dict(grid=r["grid"]), dict(grid=grid.tolist(), H=Hm.tolist())))
 
 
 def corr_fock_dist(ctx, B):
@@ -815,6 +856,10 @@ def sampler_one(ctx, B, case):
         u = us[min(k, len(us) - 1)]
         pd = sum(w * pf * e for w, (pf, e) in zip(w0, fac))
         ub = sum(abs(w) * pf * e for w, (pf, e) in zip(w0, fac) if not w < 0)
+        # the envelope implied by the recorded proposal (Z fixed by the first envelope peak); equals `ub` for the documented weights
+        a_k, p_k = [int(i) for i in ch[k]["a"]], np.asarray(ch[k]["p"], dtype=float)
+        if a_k and p_k[0] > 0:
+            ub = abs(w0[a_k[0]]) / p_k[0] * sum(pj * fac[i][0] * fac[i][1] for pj, i in zip(p_k, a_k))
         if abs(u * ub - pd) < 1e-9 * max(ub, 1e-300):
             continue                                  # too close to the threshold to compare float with exact
         observed = (k == total - 1)
@@ -858,6 +903,99 @@ def sampler_one(ctx, B, case):
               "Measure.bosonicDyneComp vs BosonicModes.measure_dyne (accepted sample)", case, chk2)
 
 
+
+
+def oracle_sampler_complex(ctx, rng, case=None):
+    """bosonic measure_dyne on a state with a conjugate pair of complex-mean, complex-weight peaks (the cat-state
+    representation) plus a real peak, generator scripted: every accept / reject decision must be `u · envelope < target`
+    with the target density Re Σ w_i N(x; μ_i, Σ_i + σ) and the envelope Σ |w_i| e^{½ μ_Iᵀ W μ_I} N(x; Re μ_i, Σ_i + σ), both
+    evaluated here independently; peak-choice probabilities = normalised envelope weights; proposal = the chosen peak with
+    the real part of its mean"""
+    from strawberryfields.backends.bosonicbackend.bosoniccircuit import BosonicModes
+    if case is None:
+        n = rng.randint(1, 2)
+        mode = rng.randrange(n)
+        cov_r, cov_p = m6.rand_cov(rng, 2 * n), m6.rand_cov(rng, 2 * n)
+        mu_r = [m6.dy(rng, -4, 4, 4) for _ in range(2 * n)]
+        mu_p = [m6.dy(rng, -4, 4, 4) for _ in range(2 * n)]
+        nu_p = [m6.dy(rng, -3, 3, 4) for _ in range(2 * n)]
+        c = [m6.dy(rng, -2, 2, 8), m6.dy(rng, -2, 2, 8)]
+        while c == [0, 0]:
+            c = [m6.dy(rng, -2, 2, 8), m6.dy(rng, -2, 2, 8)]        # a pair of weight zero would not be a complex-mean state
+        case = dict(n=n, mode=mode, cov_r=cov_r.tolist(), cov_p=cov_p.tolist(), mu_r=mu_r, mu_p=mu_p, nu_p=nu_p, c=c,
+                    covmat=(m6.phys_cov(rng, 2) if rng.random() < 0.5 else np.eye(2)).tolist(),
+                    offs=[[m6.dy(rng, -6, 6, 4), m6.dy(rng, -6, 6, 4)] for _ in range(4)],
+                    us=[rng.choice([0.99, 0.8, 0.4]), rng.choice([0.9, 0.3]), 0.0], picks=[rng.randrange(6) for _ in range(6)])
+    n, mode = case["n"], case["mode"]
+    cc = complex(*case["c"])
+    wr = 1.0 - 2 * cc.real
+    weights = np.array([wr, cc, np.conj(cc)], dtype=complex)
+    mp = np.array(case["mu_p"]) + 1j * np.array(case["nu_p"])
+    means = np.array([np.array(case["mu_r"], dtype=complex), mp, np.conj(mp)])
+    covs = np.array([case["cov_r"], case["cov_p"], case["cov_p"]], dtype=complex)
+    covmat, offs, us, picks = np.array(case["covmat"]), [np.array(o) for o in case["offs"]], case["us"], case["picks"]
+    ix = [2 * mode, 2 * mode + 1]
+    rp = dict(kind="samplercx", case=case)
+    b = BosonicModes(n)
+    b.weights, b.means, b.covs = weights.copy(), means.copy(), covs.copy()
+    counter = dict(k=0)
+
+    def mvn(mean, cov):
+        if counter["k"] >= 10:
+            raise _GiveUp()
+        v = mean + offs[counter["k"] % len(offs)]
+        counter["k"] += 1
+        return v
+    sr = m6.ScriptRNG(choice=lambda a, p: a[picks[counter["k"] % len(picks)] % len(a)], mvn=mvn,
+                      random=lambda k: us[min(k, len(us) - 1)])
+    try:
+        with sr:
+            b.measure_dyne(covmat.copy(), [mode], shots=1)
+    except _GiveUp:
+        ctx.tally("samplercx:gave-up")
+        return
+    except Exception as e:  # noqa: BLE001
+        ctx.fail("sampler-born:raises", f"bosonic measure_dyne on a complex-mean mixture raised {type(e).__name__}: {e}", rp)
+        return
+    ch, mv = sr.calls("choice"), sr.calls("multivariate_normal")
+    S = [covs[i][np.ix_(ix, ix)].real + covmat for i in range(3)]
+    W = [np.linalg.inv(x_) for x_ in S]
+    pref = [1.0 / math.sqrt(np.linalg.det(2 * np.pi * x_)) for x_ in S]
+    ubw = np.array([abs(weights[i]) * math.exp(0.5 * means[i][ix].imag @ W[i] @ means[i][ix].imag) for i in range(3)])
+    ub_ids = [i for i in range(3) if (abs(means[i][ix].imag).max() > 0) or not (weights[i].imag == 0 and weights[i].real < 0)]
+    for k in range(len(mv)):
+        ctx.oracle_cases += 1
+        pk = np.asarray(ch[k]["p"], dtype=float)
+        if [int(i) for i in ch[k]["a"]] != ub_ids or abs(pk.sum() - 1) > 1e-9 or np.any(pk < 0) or pk[0] <= 0:
+            ctx.fail("sampler-born:proposal-weights", f"bosonic measure_dyne (complex-mean peaks): peak choice over {list(ch[k]['a'])} with "
+                     f"p = {pk.tolist()}; the envelope peaks are {ub_ids}", rp)
+            return
+        if not np.allclose(pk, ubw[ub_ids] / ubw[ub_ids].sum(), atol=1e-12):
+            ctx.tally("samplercx:other-envelope-weights")      # allowed as long as the accept test uses the same envelope (below)
+        peak = ch[k]["a"][picks[k % len(picks)] % len(ch[k]["a"])]
+        if not (np.allclose(mv[k]["mean"], means[peak][ix].real, atol=1e-12) and np.allclose(mv[k]["cov"], S[peak], atol=1e-12)):
+            ctx.fail("sampler-born:proposal", f"bosonic measure_dyne (complex-mean peaks): proposal N({mv[k]['mean'].tolist()}, ...) for peak {peak}, "
+                     f"expected mean {means[peak][ix].real.tolist()} and cov {S[peak].tolist()}", rp)
+            return
+        x = mv[k]["mean"] + offs[k % len(offs)]
+        pd = sum((weights[i] * pref[i] * np.exp(-0.5 * (x - means[i][ix]) @ W[i] @ (x - means[i][ix]))) for i in range(3)).real
+        # envelope implied by the proposal: Z · Σ p_i N(x; Re μ_i, S_i) with Z fixed by the real peak 0 (|w_0| = Z p_0);
+        # any such envelope gives Born-distributed samples iff it dominates the target and the accept test is u·envelope < target
+        Z = abs(weights[0]) / pk[0]
+        ub = Z * sum(pk[j] * pref[i] * math.exp(-0.5 * (x - means[i][ix].real) @ W[i] @ (x - means[i][ix].real))
+                     for j, i in enumerate(ub_ids))
+        if pd > ub * (1 + 1e-9) + 1e-15:
+            ctx.fail("sampler-born:not-dominated", f"bosonic measure_dyne (complex-mean peaks): at the proposed point {x.tolist()} the target density "
+                     f"{pd:.6g} exceeds the envelope {ub:.6g} implied by the proposal", rp)
+            return
+        u = us[min(k, len(us) - 1)]
+        if abs(u * ub - pd) < 1e-9 * max(ub, 1e-300):
+            continue
+        observed = (k == len(mv) - 1)
+        if observed != (u * ub < pd):
+            ctx.fail("sampler-born:accept-test", f"bosonic measure_dyne (complex-mean peaks, weights {weights.tolist()}): proposed point {x.tolist()} "
+                     f"with uniform draw {u} was {'accepted' if observed else 'rejected'} although target = {pd:.6g}, envelope = {ub:.6g}", rp)
+            return
 
 
 class _Stub:
@@ -1083,6 +1221,40 @@ def _meas_op(kind, mode, phi=None, select=None):
     return dict(cls="MeasureHeterodyne", regs=[mode], pars=[], select=select)
 
 
+ZERO_FORMS = dict(homodyne=["int", "float", "negfloat"], heterodyne=["int", "float", "complex", "negcomplex"])
+
+
+def zero_value(form):
+    """post-selection on exactly zero, in every form a user may write it (all are falsy in Python, all are valid outcomes)"""
+    return {"int": 0, "float": 0.0, "negfloat": -0.0, "complex": 0j, "negcomplex": complex(-0.0, 0.0)}[form]
+
+
+def make_zero(rng, case):
+    """turn a generated post-selection case into one that heralds on the value 0"""
+    case["zero"] = rng.choice(ZERO_FORMS[case["kind"]])
+    case["outcome"] = 0.0 if case["kind"] == "homodyne" else [0.0, 0.0]
+    return case
+
+
+def check_postselected_protocol(ctx, rp, backend, kind, sel, res, eng, mode, script, what):
+    """what the property demands of ANY post-selected measurement besides the conditional state: the reported sample and the
+    RegRef value are the selected value itself, and the random generator is not consulted (the only documented draw is the
+    unobserved conjugate quadrature in the Gaussian finite-squeezing homodyne)"""
+    samples = np.asarray(res.samples)
+    if samples.shape != (1, 1) or not (samples[0, 0] == sel or abs(samples[0, 0] - sel) <= 1e-12 * max(1.0, abs(sel))):
+        ctx.fail(f"dyne-select-returned:{kind}:{backend}", f"{backend}: {what}: post-selected value {sel!r} reported as {samples.tolist()}", rp)
+    val = eng.run_progs[-1].reg_refs[mode].val
+    v = None if val is None else np.asarray(val).ravel()
+    if v is None or v.shape != (1,) or not (v[0] == sel or abs(v[0] - sel) <= 1e-12 * max(1.0, abs(sel))):
+        ctx.fail(f"select-regref:{kind}:{backend}", f"{backend}: {what}: RegRef q[{mode}].val = {val!r} after post-selecting {sel!r}", rp)
+    if script is not None:
+        allowed = {"normal"} if (backend == "gaussian" and kind == "homodyne") else set()
+        draws = [c["fn"] for c in script.log if c["fn"] not in allowed]
+        if draws or len(script.calls("normal")) > 1:
+            ctx.fail(f"select-consults-rng:{kind}:{backend}", f"{backend}: {what}: a post-selected measurement drew from the random generator "
+                     f"({[c['fn'] for c in script.log]}): the outcome is not the one that was selected", rp)
+
+
 def oracle_dyne_case(ctx, sf, case):
     """post-select a homodyne / heterodyne outcome on every back end; compare the full post-measurement state
     (unmeasured modes conditional, measured mode vacuum) with the independent reference"""
@@ -1092,15 +1264,17 @@ def oracle_dyne_case(ctx, sf, case):
     sc = math.sqrt(hbar / 2)
     if kind == "homodyne":
         out2 = case["outcome"]                               # hbar = 2 units
-        sel = out2 * sc
+        sel = out2 * sc if not case.get("zero") else zero_value(case["zero"])
         refc = m6.ref_condition(ref, m, "homodyne", out2, case["phi"])
         op = _meas_op("homodyne", m, case["phi"], sel)
     else:
         al = complex(*case["outcome"])
-        sel = al
+        sel = al if not case.get("zero") else zero_value(case["zero"])
         refc = m6.ref_condition(ref, m, "heterodyne", al)
-        op = _meas_op("heterodyne", m, select=al)
+        op = _meas_op("heterodyne", m, select=sel)
     spec = dict(n=n, ops=case["prefix"] + [op])
+    if case.get("zero"):
+        ctx.tally(f"select-zero:{kind}:{backend}:{case['zero']}")
     want = refc.alpha_N_M()
     if hasattr(ref, "active") and ref.active != list(range(ref.n)):
         want = sim.restrict_moments(want, ref.active)      # register with holes: the state lists the live modes, ascending
@@ -1114,7 +1288,7 @@ def oracle_dyne_case(ctx, sf, case):
         bad = d > tol
     else:
         D = case.get("cutoff", 10)
-        res, eng, got = _run(sf, spec, backend, hbar, cutoff=D)
+        res, eng, got = _run(sf, spec, backend, hbar, cutoff=D, script=script)
         d = sim.moment_dist(got, want)
         bad = False
         if d > 2e-4:
@@ -1128,8 +1302,8 @@ def oracle_dyne_case(ctx, sf, case):
         ctx.fail(f"dyne-conditional:{kind}:{backend}",
                  f"{backend}: state after Measure{kind.capitalize()}(select={sel}) on mode {m} of {n} (phi={case.get('phi')}, "
                  f"hbar={hbar}) differs from the conditional state by {d:.3g} in (alpha, N, M)", rp)
-    if samples.shape != (1, 1) or abs(samples[0, 0] - sel) > 1e-9:
-        ctx.fail(f"dyne-select-returned:{kind}:{backend}", f"{backend}: post-selected value {sel} reported as {samples.tolist()}", rp)
+    check_postselected_protocol(ctx, rp, backend, kind, sel, res, eng, m, script,
+                                f"Measure{kind.capitalize()}(select={sel!r}) on mode {m} of {n} (phi={case.get('phi')}, hbar={hbar})")
 
 
 def gen_dyne_case(rng, backend, kind):
@@ -1298,8 +1472,17 @@ def oracle_fock_case(ctx, sf, case):
         spec = dict(n=case["n"], ops=case["prefix"] + [dict(cls="MeasureFock", regs=true_regs, pars=[], select=sel)])
         if p < 1e-9:
             return
-        res, rho1, _ = _fock_state_of(sf, spec, D, pure)
+        script0 = m6.ScriptRNG()
+        res, rho1, eng0 = _fock_state_of(sf, spec, D, pure, script=script0)
         outcome = dict(zip(regs, sel))
+        if script0.log:
+            ctx.fail("select-consults-rng:fock:fock", f"MeasureFock(select={sel}) | {true_regs} drew from the random generator "
+                     f"({[c['fn'] for c in script0.log]})", rp)
+        vals = [eng0.run_progs[-1].reg_refs[m].val for m in true_regs]
+        if any(v is None for v in vals) or [int(np.real(np.asarray(v).ravel()[0])) for v in vals] != list(sel):
+            ctx.fail("select-regref:fock:fock", f"MeasureFock(select={sel}) | {true_regs}: RegRef values {vals}", rp)
+        if all(v == 0 for v in sel):
+            ctx.tally("select-zero:fock:fock")
     else:
         spec = dict(n=case["n"], ops=case["prefix"] + [dict(cls="MeasureFock", regs=true_regs, pars=[])])
         pick = case["pick"]
@@ -1366,6 +1549,11 @@ def gen_fock_case(rng, selected):
         regs = case["regs"]
     if selected:
         case["select"] = [rng.randint(0, 2) for _ in regs]
+        u = rng.random()
+        if u < 0.25:
+            case["select"] = [0 for _ in regs]                     # heralding on vacuum: [0], [0, 0], ...
+        elif u < 0.4:
+            case["select"][rng.randrange(len(regs))] = D - 1       # the highest photon number the cutoff can represent
     else:
         case["pick"] = rng.randrange(50)
     return case
@@ -1530,7 +1718,10 @@ def oracle_fock_layout(ctx, sf, rng, spec=None):
         for g in groups:
             op = dict(cls="MeasureFock", regs=g, pars=[])
             if dark:
-                op["kw"] = dict(dark_counts=[round(rng.uniform(0.1, 2.0), 2) for _ in g])
+                dc = [round(rng.uniform(0.1, 2.0), 2) if rng.random() < 0.7 else 0 for _ in g]
+                if rng.random() < 0.2:
+                    dc = [0 for _ in g]                            # zero rates are valid (and falsy)
+                op["kw"] = dict(dark_counts=dc if not (len(g) == 1 and rng.random() < 0.4) else dc[0])
             ops_.append(op)
         spec = dict(n=n, ops=ops_)
     n = spec["n"]
@@ -1547,7 +1738,8 @@ def oracle_fock_layout(ctx, sf, rng, spec=None):
         return
     exp = list(ks)
     calls = script.calls("poisson")
-    want_calls = [([float(x) for x in o["kw"]["dark_counts"]], (1, len(o["regs"]))) for o in cmds
+    as_list = lambda dc: [float(x) for x in (dc if isinstance(dc, (list, tuple)) else [dc])]
+    want_calls = [(as_list(o["kw"]["dark_counts"]), (1, len(o["regs"]))) for o in cmds
                   if o.get("kw", {}).get("dark_counts") is not None]
     for o in cmds:
         if o.get("kw", {}).get("dark_counts") is not None:
@@ -1658,6 +1850,10 @@ def gen_shared_case(rng, backend):
     a, b, c = rng.sample(range(n), 3)
     phi = round(rng.uniform(-1.5, 1.5), 3)
     o1, o2 = round(rng.uniform(-0.6, 0.6), 3), round(rng.uniform(-0.6, 0.6), 3)
+    if rng.random() < 0.4:
+        o1 = 0.0
+    elif rng.random() < 0.3:
+        o2 = 0.0
     # (a, phi, o1) and (c, phi, o1) share one object; (b, phi, o2) has the same angle but another select
     return dict(backend=backend, hbar=hbar, n=n, prefixes=prefixes, meas=[(a, phi, o1), (b, phi, o2), (c, phi, o1)])
 
@@ -1921,10 +2117,14 @@ def oracle(ctx, sf):
         backend = ["gaussian", "bosonic"][it % 2]
         kind = ["homodyne", "heterodyne"][(it // 2) % 2]
         case = gen_dyne_case(rng, backend, kind)
+        if it % 12 >= 8:                       # a third of the cases of every (back end, measurement) pair herald on exactly 0
+            make_zero(rng, case)
         ctx.count(f"oracle:dyne:{kind}:{backend}", case, True, sample=dict(n=case["n"], mode=case["mode"], kind=kind, backend=backend))
         run_oracle_case(ctx, sf, "dyne", case)
     for it in range(ctx.n(6, 60)):
         case = gen_dyne_case(rng, "fock", "homodyne")
+        if it % 3 == 2:
+            make_zero(rng, case)
         ctx.count("oracle:dyne:homodyne:fock", case, True)
         run_oracle_case(ctx, sf, "dyne", case)
     for it in range(ctx.n(24, 300)):
@@ -1953,6 +2153,8 @@ def oracle(ctx, sf):
         backend = ["gaussian", "bosonic", "fock"][it % 3] if it % 6 != 5 else "fock"
         backend = backend if backend != "fock" or it % 2 == 1 else "gaussian"
         case = gen_holes_case(rng, backend, ["homodyne", "heterodyne"][(it // 3) % 2] if backend != "fock" else "homodyne")
+        if it % 4 == 3:
+            make_zero(rng, case)
         ctx.count(f"oracle:holes:{case['kind']}:{backend}", case, True, sample=dict(n=case["n"], mode=case["mode"], backend=backend))
         run_oracle_case(ctx, sf, "dyne", case)
     for it in range(ctx.n(6, 60)):
@@ -1981,6 +2183,9 @@ def oracle(ctx, sf):
     for it in range(ctx.n(6, 60)):
         ctx.count("oracle:gauss-certain", None)
         oracle_gauss_certain(ctx, sf, rng)
+    for it in range(ctx.n(16, 160)):
+        ctx.count("oracle:sampler-complex", None)
+        oracle_sampler_complex(ctx, rng)
     for it in range(ctx.n(8, 80)):
         case = gen_multi_dyne_case(rng, ["gaussian", "bosonic"][it % 2])
         ctx.count(f"oracle:multi-dyne:{case['backend']}", case, True, sample=dict(n=case["n"], modes=case["modes"]))
@@ -2000,6 +2205,7 @@ def run(ctx, sf):
         corr_weights(ctx, B)
         corr_fock(ctx, B)
         corr_fock_dist(ctx, B)
+        corr_hermite(ctx, B)
         corr_sampler(ctx, B)
     corr_engine(ctx, B, sf)       # layout oracle always; model comparison only when the proof side is intact
     B.flush()
@@ -2018,6 +2224,8 @@ def _replay_one(ctx, sf, rp):
         oracle_fock_layout(ctx, sf, None, spec=rp["spec"])
     elif kind == "sampler":
         sampler_one(ctx, None, rp["case"])
+    elif kind == "samplercx":
+        oracle_sampler_complex(ctx, None, case=rp["case"])
     elif kind == "gausscertain":
         oracle_gauss_certain(ctx, sf, None, case=rp["case"])
     elif kind in ORACLES:
